@@ -70,8 +70,18 @@ pub fn run(args: &Args) {
         let size_log = match kind { 8 => rng.range(5, 6), 6 | 7 => rng.range(5, 8), _ => rng.range(3, 9) } as u32;
         let mb = min_blowup(kind);
         let lb = mb.trailing_zeros() as usize;
-        // learn the trace length from the builder's formula, then draw options valid for it
-        let (_, _, n) = build(kind, hasher, size_log, ProofOptions::new(28, 8, 0, EXTENSIONS[0], 4, 31, BATCHING[0], BATCHING[0]));
+        // learn the trace length from a probe proof with safe options (the same ones the repository's
+        // own tests use), then draw options whose FRI geometry is realisable for that length
+        let n = match guard(|| {
+            let (_, probe, _) = build(kind, hasher, size_log, ProofOptions::new(28, 8, 0, EXTENSIONS[0], 4, 31, BATCHING[0], BATCHING[0]));
+            probe.prove().trace_info().length()
+        }) {
+            Ok(n) => n,
+            Err(p) => {
+                rep.inconclusive("example-probe-proof-failed", json!({"kind": kind, "size_log": size_log, "panic": p.sig()}));
+                continue;
+            },
+        };
         let opts = loop {
             let o = Opts {
                 queries: *rng.pick(&[1usize, 2, 7, 28, 64, 255]),
